@@ -66,7 +66,7 @@ func (e *Engine) concretize(x *Sym) int64 {
 		}
 		return 0
 	}
-	for n := 0; n < 64; n++ {
+	for n := 0; n < 512; n++ {
 		i := len(e.trace)
 		var v int64
 		if i < len(e.prefix) {
@@ -86,7 +86,7 @@ func (e *Engine) concretize(x *Sym) int64 {
 			return v
 		}
 	}
-	panic(inconclusive{"concretize: more than 64 feasible values for a symbolic size/index (bound)"})
+	panic(inconclusive{"concretize: more than 512 feasible values for a symbolic size/index (bound)"})
 }
 
 // boundedIndex returns a concrete index in [0,n); out-of-range values raise the Go panic.
@@ -100,6 +100,21 @@ func boundedIndex(idx value, n int64, msg string) int64 {
 		return i
 	}
 	var inr value
+	if w := kindWidth(s.K); w < 64 && !isMathInt(s.K) {
+		max := int64(1)<<uint(w) - 1
+		if kindSigned(s.K) {
+			max = int64(1)<<uint(w-1) - 1
+		}
+		if n > max {
+			// the upper bound cannot be exceeded by a value of this type
+			if kindSigned(s.K) {
+				if eng.truth(symBool(fmt.Sprintf("(bvslt %s %s)", s.E, lit(symOfValue(s.K, 0))))) {
+					panic(fmt.Sprintf("runtime error: %s [symbolic] with length %d", msg, n))
+				}
+			}
+			return eng.concretize(s)
+		}
+	}
 	nl := lit(symOfValue(s.K, n))
 	zl := lit(symOfValue(s.K, 0))
 	switch {
@@ -118,8 +133,8 @@ func boundedIndex(idx value, n int64, msg string) int64 {
 
 // concretizeRange enumerates lo..hi in order (x is known to lie in that range).
 func (e *Engine) concretizeRange(x *Sym, lo, hi int64) int64 {
-	if hi-lo > 512 {
-		return e.concretize(x)
+	if hi-lo > 16 {
+		return e.concretize(x) // model-guided: only feasible values are enumerated
 	}
 	for v := lo; v < hi; v++ {
 		e.pendingVal = v
